@@ -177,6 +177,19 @@ pub fn run<A: Cx>(d: &mut Drv<A>, scale: usize, all_offsets: bool) {
             for n in counts {
                 d.emit(json!({"op": "fromraw", "dst": 8, "c": A::NAME, "n": n, "limbs": l}));
             }
+            // counts far beyond any image, among them those whose bit count wraps around 2^64 to
+            // something the image does hold
+            let t = (w as u64).trailing_zeros();
+            let mut far: Vec<u64> = vec![1 << 31, 1 << 62, 1 << 63, (1 << 63) + 1, u64::MAX];
+            if t > 0 {
+                for k in [0u64, 1, m as u64, cap as u64] {
+                    far.push(k + (1 << (64 - t)));
+                }
+            }
+            for n in far {
+                let nl = json!([n & 0xffff, (n >> 16) & 0xffff, (n >> 32) & 0xffff, n >> 48]);
+                d.emit(json!({"op": "fromraw", "dst": 8, "c": A::NAME, "nl": nl, "limbs": l}));
+            }
         }
         // from_raw(into_raw(s), len(s)) == s, for an image taken from a real sequence
         let o = d.emit(json!({"op": "intoraw", "r": 3}));
